@@ -13,7 +13,7 @@ RULE = (
     "without =value, grouped shorts, negative numbers, null, words) instantiated against each of the 60 small "
     "formats (argument shapes x option shapes incl. no arguments at all, typed optional-value options, command "
     "names), strict and lenient; faults: Hypothesis C01 lines with exactly one fault (drop required positional, "
-    "surplus positional, unknown long/short option (also inside a short-flag group), value attached to a flag, required value stripped, ill-typed "
+    "surplus positional, unknown long/short option (also inside a short-flag group), value attached to a flag, required value stripped or left empty, ill-typed "
     "value). Non-trivial (soup): >= 1 option-like token and >= 1 of {'', -, --, negative number, token with '='}; "
     "every fault mutant is non-trivial. Soup cases are distinct by construction, fault cases by hash."
 )
@@ -146,9 +146,9 @@ def shard_soup(ctx, arg):
 
 
 # ------------------------------------------------------------------------------------------ faults
-FAULTS = ["drop-required", "surplus", "unknown-long", "unknown-short", "unknown-in-group", "flag-value", "strip-required-value", "ill-typed"]
+FAULTS = ["drop-required", "surplus", "unknown-long", "unknown-short", "unknown-in-group", "flag-value", "empty-required-value", "strip-required-value", "ill-typed"]
 EXPECT = {"drop-required": "CannotParse", "surplus": "CannotParse", "unknown-long": "NoSuchOption",
-          "unknown-short": "NoSuchOption", "unknown-in-group": "NoSuchOption", "flag-value": "CannotParse", "strip-required-value": "CannotParse",
+          "unknown-short": "NoSuchOption", "unknown-in-group": "NoSuchOption", "empty-required-value": "CannotParse", "flag-value": "CannotParse", "strip-required-value": "CannotParse",
           "ill-typed": "ValueError"}
 
 
@@ -206,6 +206,18 @@ def apply_fault(case, fault, pick):
             head_end -= 1
         name = u["tokens"][0].split("=")[0]
         units.insert(head_end, {"kind": "opt", "tokens": [name]})
+        return _tokens(units)
+    if fault == "empty-required-value":
+        # the value slot is there but empty: '--name=', '--name ""', '-n ""' leave the required value out
+        cands = [i for i, u in enumerate(units) if u["kind"] == "opt" and u.get("mode") in ("req", "multi")
+                 and u.get("form") in ("long-eq", "long-detached", "short-detached")]
+        if not cands:
+            return None
+        u = units[cands[pick % len(cands)]]
+        if u["form"] == "long-eq":
+            u["tokens"] = [u["tokens"][0].split("=")[0] + "="]
+        else:
+            u["tokens"] = [u["tokens"][0], ""]
         return _tokens(units)
     if fault == "ill-typed":
         # a typed argument value: replace the positional text
